@@ -24,8 +24,10 @@ var table = map[string]func(tier string) int{
 	"C10": checks.C10,
 	"C11": checks.C11,
 	"C12": checks.C12,
+	"C15": checks.C15,
 	"C16": checks.C16,
 	"C19": checks.C19,
+	"C20": checks.C20,
 }
 
 func main() {
